@@ -41,6 +41,11 @@ func verifyFunction(prog *Program, cs *ContractSet, property string, fn *ssa.Fun
 		x.assume("true", x.typeInv(v, st))
 		fr.vals[p] = v
 		fr.params = append(fr.params, v)
+		if sl, ok := p.Type().Underlying().(*types.Slice); ok {
+			for k := range layout(sl.Elem()) {
+				x.anchor(fmt.Sprintf("E$%s$%d", typeKey(sl.Elem()), k), v.base())
+			}
+		}
 		x.assume("true", x.deepTypeInv(v, st, 0))
 	}
 	for _, fv := range fn.FreeVars {
